@@ -226,6 +226,12 @@ def run(ctx):
     })
     files = ["hypergraphx/generation/configuration_model.py", "hypergraphx/generation/directed_configuration_model.py"]
     ctx.add_sites(res, ctx.sites(rules=("C-SIG", "K-ARG", "K-SIZE"), files=files))
+    from .. import cmpshape as M
+
+    res.rules["M-NONE"] = "order / size are tested with `is None`, never by truthiness (order 0 is a legitimate restriction)"
+    res.rules["M-EXCL"] = "order and size together are rejected"
+    M.check_none_tests(ctx, res, "configuration_model.configuration_model")
+    M.check_exclusion(ctx, res, "configuration_model.configuration_model")
     check_reshuffle(ctx, res)
     check_writeback(ctx, res)
     check_complement(ctx, res)
